@@ -410,6 +410,44 @@ def decide_path(ob, path, claims, assume_f, replay_fn, dump=None):
         pv.status = "holds"
         pv.relaxed_only = bool(monos)
         return pv
+    if r == "unknown" and len(claims) >= 1:
+        # the conjunction was too big for one query: decide the claims one by one (Eq claims entry by entry)
+        all_unsat = True
+        for c in claims:
+            parts = []
+            if isinstance(c, Eq):
+                ds = c.diffs()
+                if ds is None:
+                    all_unsat = False
+                    break
+                t = Poly.const(c.tol)
+                for dp in ds:
+                    if dp.is_const():
+                        if abs(dp.cval()) > core.frac(c.tol):
+                            all_unsat = False
+                        continue
+                    parts.append(~(core._cmp0(dp.sub(t), "le") & core._cmp0(dp.add(t), "ge")))
+            else:
+                parts.append(~c.formula())
+            for part in parts:
+                if part.k == "const":
+                    if part.a:
+                        all_unsat = False
+                    continue
+                core.CTX.monos = set(path.monos)
+                pz = part.z3()
+                sp = _solver(ob.solver_timeout_ms)
+                sp.add(_base_constraints(ob, path, assume_f) + core.mono_facts(set(core.CTX.monos)))
+                sp.add(pz)
+                if _check(sp, pv) != "unsat":
+                    all_unsat = False
+                    break
+            if not all_unsat:
+                break
+        if all_unsat:
+            pv.status = "holds"
+            pv.relaxed_only = bool(monos)
+            return pv
     candidates = []
     exact_needed = bool(monos) or any(d[1] is not None for d in path.defs)
     if r == "sat":
